@@ -494,6 +494,10 @@ impl SimDriver {
     }
 
     fn forced_faults(&self) {
+        if self.w.wires.borrow().is_empty() {
+            // the connection does not exist yet: the fault lands as soon as it does
+            return;
+        }
         let f = &self.plan.faults;
         let steps = self.st.borrow().steps;
         let mut st = self.st.borrow_mut();
